@@ -437,7 +437,8 @@ pub fn gen_world(rng: &mut Rng, cfg: &WorldCfg) -> GWorld {
             let l: Vec<ExemptedDependency> = (0..rng.range(1, 2))
                 .map(|_| ExemptedDependency {
                     version: rng.pick(&vs).clone(),
-                    criteria: gen_crit_list(rng, &crits, false),
+                    // (an exemption may list nothing: accepted by the loader, certifies nothing)
+                    criteria: if rng.chance(1, 10) { vec![] } else { gen_crit_list(rng, &crits, false) },
                     suggest: !rng.chance(1, 5),
                     notes: None,
                 })
